@@ -206,6 +206,57 @@ def hash_history_case(sink, seed, idx):
     sink.case(harness.fp('hist', idx % 64, n, str(kind)), True, ident if idx < 2 else None)
 
 
+NUM_KEYS = [-1, 0, 1, 2, -2, 7, 255, 256, 257, 10**6, 2**31, 2**61 - 2, 2**61 - 1, 2**61, 2**61 + 1, 2**62, -(2**61), -(2**61 - 1), 2**63 - 1, 2**63, 2**64, -(2**63), 10**30]
+
+
+def numeric_twin_case(sink, seed, idx):  # noqa: C901
+    """Keys that compare equal across numeric types (int / bool / float / Fraction / Decimal / an int subclass): python guarantees equal
+    hashes for them, so treespecs whose key lists compare equal must hash equally too - whatever shortcut the engine takes per key type."""
+    import decimal
+    import fractions
+    from collections import OrderedDict, defaultdict
+
+    rng = gen.case_rng(seed, 'c06num', idx)
+    n = rng.randrange(1, 5)
+    ks = rng.sample(NUM_KEYS, n)
+    twin_t = rng.choice(['float', 'Fraction', 'Decimal', 'IntSub', 'bool-where-possible', 'same'])
+
+    def twin(k):
+        if twin_t == 'float':
+            return float(k) if float(k) == k else k
+        if twin_t == 'Fraction':
+            return fractions.Fraction(k)
+        if twin_t == 'Decimal':
+            return decimal.Decimal(k)
+        if twin_t == 'IntSub':
+            return gen.IntSub(k)
+        if twin_t == 'bool-where-possible':
+            return bool(k) if k in (0, 1) else k
+        return int(str(k))  # an equal int object built separately
+
+    kind = rng.choice(['dict', 'odict', 'ddict'])
+    nil = rng.random() < 0.3
+
+    def build(keys):
+        pairs = [(k, U.Leaf(i) if i % 2 else [U.Leaf(i), None]) for i, k in enumerate(keys)]
+        d = dict(pairs) if kind == 'dict' else OrderedDict(pairs) if kind == 'odict' else defaultdict(list, pairs)
+        return [d, (d,)] if idx % 2 else d
+
+    t1, t2 = build(ks), build([twin(k) for k in ks])
+    ident = dict(gen='c06num', seed=seed, index=idx, keys=repr(ks), twin=twin_t, kind=kind, nil=nil)
+    s1 = optree.tree_structure(t1, none_is_leaf=nil)
+    s2 = optree.tree_structure(t2, none_is_leaf=nil)
+    eq = s1 == s2
+    sink.check(eq == (s2 == s1) and (s1 != s2) == (not eq), 'numeric-twins/eq-symmetric', '== is symmetric and != its negation', ident)
+    sink.check(eq, 'numeric-twins/eq', 'treespecs whose dict keys compare equal (and everything else agrees) are equal', ident, lambda: (repr(s1), repr(s2)))
+    if eq:
+        sink.check(hash(s1) == hash(s2), 'numeric-twins/hash-contract', 'a == b implies hash(a) == hash(b)', ident, lambda: (repr(s1), repr(s2), hash(s1), hash(s2)))
+        sink.check(len({s1, s2}) == 1 and {s1: 1}.get(s2) == 1, 'numeric-twins/set-member', 'equal treespecs collapse in sets / work as dict keys', ident)
+    sink.count('numeric-twin-pairs')
+    sink.count(f'numeric-twin:{twin_t}')
+    sink.case(harness.fp('num', repr(ks), twin_t, kind, nil, idx % 2), n >= 2, ident if idx < 3 else None)
+
+
 def run_shard(sink, tier, seed, shard):
     n = harness.scale(50000, 700000, tier)
     i0, step = (shard or {}).get('i', 0), (shard or {}).get('n', 1)
@@ -213,6 +264,8 @@ def run_shard(sink, tier, seed, shard):
         sink.guard('harness', 'pair', dict(index=idx), lambda: check_pair(sink, seed, idx))
     for idx in range(i0, harness.scale(800, 20000, tier), step):
         sink.guard('harness', 'hash-history', dict(index=idx), lambda: hash_history_case(sink, seed, idx))
+    for idx in range(i0, harness.scale(4000, 100000, tier), step):
+        sink.guard('harness', 'numeric-twins', dict(index=idx), lambda: numeric_twin_case(sink, seed, idx))
 
 
 def finalize(sink, tier, seed):
@@ -224,3 +277,4 @@ def finalize(sink, tier, seed):
     sink.require('route-sets')
     sink.require('equal-pairs-across-namespaces')
     sink.require('hash-history-cases')
+    sink.require('numeric-twin-pairs', 500)
